@@ -39,54 +39,51 @@ func childMain(mode string) {
 		w.Header().Set("Connection", "close")
 		fmt.Fprintf(w, "xff=%s", r.Header.Get("X-Forwarded-For"))
 	}))
-	cfg := forwarder.DefaultHTTPProxyConfig()
-	cfg.ListenerConfig = *forwarder.DefaultListenerConfig("127.0.0.1:0")
-	cfg.ProxyProtocolConfig = &forwarder.ProxyProtocolConfig{ReadHeaderTimeout: e2eHeaderTimeout}
-	cfg.ProxyLocalhost = forwarder.AllowProxyLocalhost
-	hp, err := forwarder.NewHTTPProxy(cfg, nil, nil, nil, log.NopLogger, nil)
-	if err != nil {
-		panic(err)
-	}
 	ctx, cancel := context.WithCancel(context.Background())
-	go func() {
-		if err := hp.Run(ctx); err != nil && ctx.Err() == nil {
-			fmt.Fprintln(os.Stderr, "proxy Run returned:", err)
-			os.Exit(7)
+	// the four listener stackings: plain, TLS (the PROXY header travels in clear BEFORE the handshake), rate-limited
+	// (ratelimit.NewListener on top of the PROXY-protocol listener), rate-limited + TLS
+	start := func(withTLS, limited bool) string {
+		cfg := forwarder.DefaultHTTPProxyConfig()
+		cfg.ListenerConfig = *forwarder.DefaultListenerConfig("127.0.0.1:0")
+		cfg.ProxyProtocolConfig = &forwarder.ProxyProtocolConfig{ReadHeaderTimeout: e2eHeaderTimeout}
+		cfg.ProxyLocalhost = forwarder.AllowProxyLocalhost
+		cfg.PromRegistry = prometheus.NewRegistry()
+		if withTLS {
+			cfg.Protocol = forwarder.HTTPSScheme
 		}
-	}()
-	addrs, _ := hp.Addr()
-	// the same with TLS on the listener: the PROXY header travels in clear BEFORE the TLS handshake
-	cfgS := forwarder.DefaultHTTPProxyConfig()
-	cfgS.ListenerConfig = *forwarder.DefaultListenerConfig("127.0.0.1:0")
-	cfgS.ProxyProtocolConfig = &forwarder.ProxyProtocolConfig{ReadHeaderTimeout: e2eHeaderTimeout}
-	cfgS.ProxyLocalhost = forwarder.AllowProxyLocalhost
-	cfgS.Protocol = forwarder.HTTPSScheme
-	cfgS.PromRegistry = prometheus.NewRegistry()
-	hps, err := forwarder.NewHTTPProxy(cfgS, nil, nil, nil, log.NopLogger, nil)
-	if err != nil {
-		panic(err)
+		if limited {
+			cfg.ReadLimit = 64 << 20
+			cfg.WriteLimit = 64 << 20
+		}
+		hp, err := forwarder.NewHTTPProxy(cfg, nil, nil, nil, log.NopLogger, nil)
+		if err != nil {
+			panic(err)
+		}
+		go func() {
+			if err := hp.Run(ctx); err != nil && ctx.Err() == nil {
+				fmt.Fprintln(os.Stderr, "proxy Run returned:", err)
+				os.Exit(7)
+			}
+		}()
+		addrs, _ := hp.Addr()
+		return addrs[0]
 	}
-	go func() {
-		if err := hps.Run(ctx); err != nil && ctx.Err() == nil {
-			fmt.Fprintln(os.Stderr, "https proxy Run returned:", err)
-			os.Exit(7)
-		}
-	}()
-	addrsS, _ := hps.Addr()
-	fmt.Printf("READY %s %s %s\n", addrs[0], ol.Addr().String(), addrsS[0])
+	fmt.Printf("READY %s %s %s %s %s\n", start(false, false), ol.Addr().String(), start(true, false), start(false, true), start(true, true))
 	io.Copy(io.Discard, os.Stdin) // parent closes stdin to stop us
 	cancel()
 }
 
 type child struct {
-	cmd    *exec.Cmd
-	stdin  io.WriteCloser
-	proxy  string
-	proxyS string // the HTTPS proxy (TLS on the listener)
-	origin string
-	stderr *bytes.Buffer
-	done   chan struct{}
-	mu     sync.Mutex
+	cmd     *exec.Cmd
+	stdin   io.WriteCloser
+	proxy   string
+	proxyS  string // the HTTPS proxy (TLS on the listener)
+	proxyL  string // rate-limited listener
+	proxyLS string // rate-limited + TLS
+	origin  string
+	stderr  *bytes.Buffer
+	done    chan struct{}
+	mu      sync.Mutex
 }
 
 func startChild() (*child, error) {
@@ -113,14 +110,26 @@ func startChild() (*child, error) {
 	select {
 	case l := <-lineCh:
 		f := strings.Fields(l)
-		if len(f) != 4 || f[0] != "READY" {
+		if len(f) != 6 || f[0] != "READY" {
 			return nil, fmt.Errorf("child did not start: %q %s", l, c.stderr.String())
 		}
-		c.proxy, c.origin, c.proxyS = f[1], f[2], f[3]
+		c.proxy, c.origin, c.proxyS, c.proxyL, c.proxyLS = f[1], f[2], f[3], f[4], f[5]
 	case <-time.After(20 * time.Second):
 		return nil, fmt.Errorf("child start timeout")
 	}
 	return c, nil
+}
+
+func (c *child) addrOf(variant string) string {
+	switch variant {
+	case "tls":
+		return c.proxyS
+	case "ratelimit":
+		return c.proxyL
+	case "ratelimit+tls":
+		return c.proxyLS
+	}
+	return c.proxy
 }
 
 func (c *child) dead() bool {
@@ -234,7 +243,7 @@ type ecaseJSON struct {
 
 type e2eMeta struct {
 	Cases       int              `json:"cases"`
-	TLSCases    int              `json:"cases_over_tls"`
+	TLSCases    int              `json:"cases_on_other_listener_stackings"`
 	Served      int              `json:"served"`
 	Crashes     int              `json:"crashes"`
 	ChildStarts int              `json:"child_starts"`
@@ -330,27 +339,36 @@ func runE2E(out string, r *rng.R, thorough bool, m *meta) {
 			continue
 		}
 		seen[string(h)] = true
-		coqc, jsn := e2eCase(ensure, h, r, goodHdr, &em, false)
+		coqc, jsn := e2eCase(ensure, h, r, goodHdr, &em, "")
 		coq = append(coq, coqc)
 		js = append(js, jsn)
 	}
-	// the HTTPS proxy: header in clear, then TLS (listener stacking: PROXY protocol below TLS)
-	for i, h := range e2eHeaders(r, thorough) {
-		if !thorough && i%4 != 1 && i > 12 {
-			continue
+	// the other listener stackings: TLS (header in clear, then the handshake), rate-limited, rate-limited + TLS
+	for vi, variant := range []string{"tls", "ratelimit", "ratelimit+tls"} {
+		for i, h := range e2eHeaders(r, thorough) {
+			if !thorough && !(i <= 12 && (vi == 0 || i%2 == 0)) && i%6 != 1+vi {
+				continue
+			}
+			coqc, jsn := e2eCase(ensure, h, r, goodHdr, &em, variant)
+			coq = append(coq, coqc)
+			js = append(js, jsn)
+			em.TLSCases++
 		}
-		coqc, jsn := e2eCase(ensure, h, r, goodHdr, &em, true)
-		coq = append(coq, coqc)
-		js = append(js, jsn)
-		em.TLSCases++
 	}
 	em.Cases = len(coq)
-	em.Timeouts = timeoutProbes(ensure, goodHdr, thorough)
+	em.Timeouts = timeoutProbes(ensure, goodHdr, thorough, "")
+	if thorough {
+		// the late-header clause at every byte position of a v1 and a v2 header, on every listener stacking
+		for _, variant := range []string{"tls", "ratelimit", "ratelimit+tls"} {
+			em.Timeouts = append(em.Timeouts, timeoutProbes(ensure, goodHdr, true, variant)...)
+		}
+	}
 	m.E2E = em
 	m.Kinds = append(m.Kinds, writeKind(out, "ecases", "ecase", "ecase_model_ok", "ecase_verdict", coq, js, 60, ""))
 }
 
-func e2eCase(ensure func() *child, h []byte, r *rng.R, goodHdr []byte, em *e2eMeta, overTLS bool) (string, ecaseJSON) {
+func e2eCase(ensure func() *child, h []byte, r *rng.R, goodHdr []byte, em *e2eMeta, variant string) (string, ecaseJSON) {
+	overTLS := variant == "tls" || variant == "ratelimit+tls"
 	c := ensure()
 	req := request(c.origin)
 	raw := append(append([]byte{}, h...), req...)
@@ -364,9 +382,9 @@ func e2eCase(ensure func() *child, h []byte, r *rng.R, goodHdr []byte, em *e2eMe
 		if len(cuts) > 0 {
 			hc = cuts[:1]
 		}
-		o = exchangeTLS(c.proxyS, h, req, hc, e2eHeaderTimeout+1500*time.Millisecond)
+		o = exchangeTLS(c.addrOf(variant), h, req, hc, e2eHeaderTimeout+1500*time.Millisecond)
 	} else {
-		o = exchange(c.proxy, raw, cuts, e2eHeaderTimeout+1500*time.Millisecond)
+		o = exchange(c.addrOf(variant), raw, cuts, e2eHeaderTimeout+1500*time.Millisecond)
 	}
 	// liveness: the process is still there and serves a well-formed connection
 	time.Sleep(15 * time.Millisecond)
@@ -406,21 +424,30 @@ func e2eCase(ensure func() *child, h []byte, r *rng.R, goodHdr []byte, em *e2eMe
 	coq := fmt.Sprintf("{| e_hdr := %s; e_req := %s; e_crashed := %s; e_alive := %s; e_status := %d; e_xff := %s; e_sock_ip := %s; e_closed := %s |}",
 		coqfmt.Bytes(h), coqfmt.Bytes(req), coqfmt.Bool(crashed), coqfmt.Bool(alive), st, coqXFF(o.XFF),
 		coqfmt.Bytes(net.ParseIP("127.0.0.1").To16()), coqfmt.Bool(o.Closed || o.Status != 0))
-	note := ""
-	if overTLS {
-		note = "tls"
-	}
-	return coq, ecaseJSON{"e2e", hex.EncodeToString(h), cuts, note}
+	return coq, ecaseJSON{"e2e", hex.EncodeToString(h), cuts, variant}
 }
 
 // timeoutProbes measures the header timeout on the real proxy (tested, not proved).
-func timeoutProbes(ensure func() *child, goodHdr []byte, stallAll bool) []map[string]any {
+func timeoutProbes(ensure func() *child, goodHdr []byte, stallAll bool, variant string) []map[string]any {
 	var out []map[string]any
 	c := ensure()
 	req := request(c.origin)
+	target := c.addrOf(variant)
+	overTLS := variant == "tls" || variant == "ratelimit+tls"
+	good := func() e2eObs {
+		if overTLS {
+			return exchangeTLS(target, goodHdr, req, nil, 3*time.Second)
+		}
+		return exchange(target, append(append([]byte{}, goodHdr...), req...), nil, 3*time.Second)
+	}
+	defer func() {
+		for _, o := range out {
+			o["listener"] = variant
+		}
+	}()
 	closeTime := func(first []byte, late []byte, lateAfter time.Duration) (time.Duration, int, bool) {
 		t0 := time.Now()
-		conn, err := net.DialTimeout("tcp", c.proxy, 2*time.Second)
+		conn, err := net.DialTimeout("tcp", target, 2*time.Second)
 		if err != nil {
 			return 0, -1, false
 		}
@@ -453,19 +480,21 @@ func timeoutProbes(ensure func() *child, goodHdr []byte, stallAll bool) []map[st
 		go func() {
 			defer wg.Done()
 			time.Sleep(50 * time.Millisecond)
-			other = exchange(c.proxy, append(append([]byte{}, goodHdr...), req...), nil, 3*time.Second)
+			other = good()
 		}()
 		el, st, closed := closeTime(p.first, nil, 0)
 		wg.Wait()
 		out = append(out, map[string]any{"probe": p.name, "closed_by_server": closed, "closed_after_ms": el.Milliseconds(), "status": st,
 			"other_connection_status": other.Status, "other_connection_latency_ms": other.Elapsed.Milliseconds(), "process_alive": !c.dead()})
 	}
-	// (c) the rest of the header arrives after the timeout: that connection must not be served
-	el, st, closed := closeTime([]byte("PROXY TCP4 1.1.1.1 2.2"), append([]byte(".2.2 1 2\r\n"), req...), e2eHeaderTimeout+300*time.Millisecond)
-	out = append(out, map[string]any{"probe": "header-completed-after-timeout", "closed_by_server": closed, "closed_after_ms": el.Milliseconds(), "status": st, "process_alive": !c.dead()})
-	// (d) a slow but timely header is served
-	el, st, closed = closeTime([]byte("PROXY TCP4 1.1.1.1 2.2"), append([]byte(".2.2 1 2\r\n"), req...), e2eHeaderTimeout/4)
-	out = append(out, map[string]any{"probe": "slow-header-within-timeout", "closed_by_server": closed, "closed_after_ms": el.Milliseconds(), "status": st, "process_alive": !c.dead()})
+	if !overTLS {
+		// (c) the rest of the header arrives after the timeout: that connection must not be served
+		el, st, closed := closeTime([]byte("PROXY TCP4 1.1.1.1 2.2"), append([]byte(".2.2 1 2\r\n"), req...), e2eHeaderTimeout+300*time.Millisecond)
+		out = append(out, map[string]any{"probe": "header-completed-after-timeout", "closed_by_server": closed, "closed_after_ms": el.Milliseconds(), "status": st, "process_alive": !c.dead()})
+		// (d) a slow but timely header is served
+		el, st, closed = closeTime([]byte("PROXY TCP4 1.1.1.1 2.2"), append([]byte(".2.2 1 2\r\n"), req...), e2eHeaderTimeout/4)
+		out = append(out, map[string]any{"probe": "slow-header-within-timeout", "closed_by_server": closed, "closed_after_ms": el.Milliseconds(), "status": st, "process_alive": !c.dead()})
+	}
 	// (e) a peer that stalls after k bytes of a well-formed header, for many k at once: every such connection is closed
 	// at about the timeout, none is served, and a well-formed connection opened meanwhile is served at once
 	for _, hdr := range [][]byte{[]byte("PROXY TCP4 1.1.1.1 2.2.2.2 1000 2000\r\n"), v2header(0x21, 0x11, 12, []byte{7, 7, 7, 7, 8, 8, 8, 8, 0x1f, 0x90, 0x00, 0x50})} {
@@ -492,7 +521,7 @@ func timeoutProbes(ensure func() *child, goodHdr []byte, stallAll bool) []map[st
 			}(i, k)
 		}
 		time.Sleep(60 * time.Millisecond)
-		other := exchange(c.proxy, append(append([]byte{}, goodHdr...), req...), nil, 3*time.Second)
+		other := good()
 		wg.Wait()
 		minMs, maxMs, notClosed, served := int64(1<<62), int64(0), 0, 0
 		for _, r := range out2 {
@@ -515,7 +544,7 @@ func timeoutProbes(ensure func() *child, goodHdr []byte, stallAll bool) []map[st
 			"other_connection_status": other.Status, "other_connection_latency_ms": other.Elapsed.Milliseconds(), "process_alive": !c.dead()})
 	}
 	// afterwards: still alive
-	p := exchange(c.proxy, append(append([]byte{}, goodHdr...), req...), nil, 2*time.Second)
+	p := good()
 	out = append(out, map[string]any{"probe": "after-all", "status": p.Status, "xff": strings.TrimSpace(p.XFF), "process_alive": !c.dead()})
 	return out
 }
@@ -534,7 +563,7 @@ func replayE2E(rp replayIn, out string, m *meta) {
 			}
 			return ch
 		}
-		em.Timeouts = timeoutProbes(ensure, []byte("PROXY TCP4 9.9.9.9 8.8.8.8 999 888\r\n"), true)
+		em.Timeouts = timeoutProbes(ensure, []byte("PROXY TCP4 9.9.9.9 8.8.8.8 999 888\r\n"), true, rp.Note)
 		if ch != nil && !ch.dead() {
 			ch.stop()
 		}
@@ -556,7 +585,7 @@ func replayE2E(rp replayIn, out string, m *meta) {
 		}
 		return ch
 	}
-	coq, js := e2eCase(ensure, h, rng.New(1), []byte("PROXY TCP4 9.9.9.9 8.8.8.8 999 888\r\n"), &em, rp.Note == "tls")
+	coq, js := e2eCase(ensure, h, rng.New(1), []byte("PROXY TCP4 9.9.9.9 8.8.8.8 999 888\r\n"), &em, rp.Note)
 	if ch != nil && !ch.dead() {
 		ch.stop()
 	}
